@@ -159,6 +159,17 @@ def run(tier):
         tiny.append(([a], [" ".join(ws2)]))
         tiny.append(([a], [a.replace(" ", "  ", 3)]))                 # whitespace-only difference: may pair
     batches(tiny, 0, "w")
+    # lines of several hundred tokens (a table of small numbers: every number and every blank is a token) with one change near
+    # the end: the emphasis is that one token, however long the line
+    table = []
+    for i in range(12 if tier == "quick" else 120):
+        r2 = random.Random(core.seed() * 9811 + i)
+        nums = [str(r2.randrange(10, 99)) for _ in range(r2.choice([140, 200, 330]))]
+        j = len(nums) - 1 - r2.randrange(8)
+        nums2 = list(nums)
+        nums2[j] = str(100 + r2.randrange(800))
+        table.append(([" ".join(nums)], [" ".join(nums2)]))
+    batches(table, 60, "w")
     uni = []
     SPACES = [" ", "\u00a0", "\u3000", "\t"]
     for i in range(150 if tier == "quick" else 1500):
